@@ -287,7 +287,7 @@ func runTicker(p TickerPlan) (vk.Outcome, error) {
 		d, j := p.D, p.J
 		cfgs := []cfgChange{{time.Now(), d, j}}
 		var ticks []time.Time
-		stopped := false
+		stopped, poisoned := false, false
 		var lastTickOrReset = time.Now()
 		var notBefore time.Time // set by Reset: "the next tick will arrive after the new period elapses"
 		got := func(ts time.Time) bool {
@@ -366,6 +366,10 @@ func runTicker(p TickerPlan) (vk.Outcome, error) {
 				panicked, pv := vk.Catch(func() { tk.Reset(time.Duration(e.D), time.Duration(e.J)) })
 				if panicked != !inDomain(e.D, e.J) {
 					verr = vk.Violf("ticker-domain", "Reset(d=%v, jitter=%v): panicked=%v (%v), documented domain says %v", time.Duration(e.D), time.Duration(e.J), panicked, pv, !inDomain(e.D, e.J))
+					// a panic that escaped from inside the ticker may have left its mutex locked: do not touch it again
+					if poisoned = panicked; poisoned {
+						vk.Established(verr) // a timer callback may already be queued on that mutex, and then the bubble cannot end
+					}
 					break
 				}
 				if !panicked {
@@ -400,7 +404,7 @@ func runTicker(p TickerPlan) (vk.Outcome, error) {
 			}
 		}
 		if verr != nil {
-			if !stopped {
+			if !stopped && !poisoned {
 				vk.Catch(func() { tk.Stop() })
 			}
 			return
